@@ -172,14 +172,19 @@ func runC13Hist(r *fw.Run, h *c13Hist) {
 			return
 		}
 		defer conn.Close()
-		var v, p, ver, u string
-		var ifs []string
+		// the caller's variables hold values from an earlier call: whatever the service reports must replace them
+		v, p, ver, u := "stale vendor", "stale product", "stale version", "stale url"
+		ifs := []string{"stale.one", "stale.two", "stale.three", "stale.four", "stale.five", "stale.six", "stale.seven", "stale.eight"}
+		keep := ifs
 		if err := conn.GetInfo(ctx, &v, &p, &ver, &u, &ifs); err != nil {
 			report("getinfo-failed", fmt.Sprintf("%s: %v", when, err))
 			return
 		}
 		if [4]string{v, p, ver, u} != h.Identity {
 			report("identity", fmt.Sprintf("%s: GetInfo returned %q, created with %q", when, []string{v, p, ver, u}, h.Identity[:]))
+		}
+		if keep[0] != "stale.one" || keep[7] != "stale.eight" {
+			report("caller-slice-overwritten", fmt.Sprintf("%s: GetInfo wrote into the backing array of the slice the caller passed in: %q", when, keep))
 		}
 		if len(ifs) != len(st.names) || strings.Join(ifs, "\x00") != strings.Join(st.names, "\x00") {
 			report("interface-list", fmt.Sprintf("%s: GetInfo lists %q, registration order is %q", when, ifs, st.names))
@@ -237,8 +242,8 @@ func runC13Hist(r *fw.Run, h *c13Hist) {
 			return
 		}
 		defer rs.Close()
-		var rv, rp, rver, ru string
-		var rifs []string
+		rv, rp, rver, ru := "stale vendor", "stale product", "stale version", "stale url"
+		rifs := []string{"stale"}
 		if err := rs.GetInfo(ctx, &rv, &rp, &rver, &ru, &rifs); err != nil {
 			report("resolver-getinfo-failed", fmt.Sprintf("%s: %v", when, err))
 		} else if [4]string{rv, rp, rver, ru} != h.Identity || strings.Join(rifs, "\x00") != strings.Join(st.names, "\x00") {
